@@ -51,7 +51,7 @@ EXPECTED_PROBES = [
 ]
 
 NAMES = ["@", "a", "sub", "ns.sub", "deep.ns.sub", "x.sub", "sub2.sub", "a.sub2.sub", "zz", "leaf.ent", "*.w", "sub3", "g.sub3", "b.a"]
-TYPES = ["NS", "NS", "A", "TXT", "CNAME", "AAAA"]
+TYPES = ["NS", "NS", "NS", "A", "TXT", "CNAME", "AAAA", "RRSIG:CNAME", "RRSIG:NS"]  # signatures: covering CNAME displaces NS like a CNAME; covering NS alone makes no cut
 QUERY_EXTRA = ["0", "aa", "sub1", "q.sub", "q.ns.sub", "z.deep.ns.sub", "ent", "q.ent", "zzz", "q.zz", "w", "q.w", "sub2", "t.sub2.sub", "sub4", "q.a", "z.b.a", "\\000.sub", "sub\\000"]
 
 
@@ -155,7 +155,7 @@ class _World:
         self.readers = []  # (txn, model snapshot dict, commits_at_open)
         self.commits = 0
         self.nontrivial = False
-        text_ok = all(op["o"] == "add" and op["n"] not in ("OUT", "LONG") and op.get("cls", "IN") == "IN" and op["t"] != "CNAME" for op in case["base"])  # (the master-file reader refuses CNAME-and-other-data instead of displacing)
+        text_ok = all(op["o"] == "add" and op["n"] not in ("OUT", "LONG") and op.get("cls", "IN") == "IN" and op["t"] not in ("CNAME", "RRSIG:CNAME") for op in case["base"])  # (the master-file reader refuses CNAME-and-other-data instead of displacing)
         if cfg.get("load_text_no_origin") and text_ok:
             # the origin is not given to the constructor: it comes from $ORIGIN in the text
             self.b, self.model = Z.load_bench_from_text("btree", cfg["relativize"], case["base"])
